@@ -106,6 +106,12 @@ def discharged(esc: Escape, table: Dict[str, str]) -> str:
     for d in STATIC_DISCHARGE.get("C14", []):
         if d["exception"] == esc.exc and d["function"] == esc.fn and d["construct"] in cons:
             return d["reason"]
+    # crc8404B(<one argument>).to_bytes(n >= 2, ...): with the default start value the checksum is a 16-bit number (C15, whole-function proof)
+    import re as _re
+
+    m_ = _re.fullmatch(r"crc8404B\(([^,()]|\([^()]*\))*\)\.to_bytes\((\d+), .*\)", cons)
+    if esc.exc == "OverflowError" and m_ and int(m_.group(2)) >= 2:
+        return "crc8404B with its default start value returns a 16-bit value (C15), which fits %s bytes" % m_.group(2)
     return ""
 
 
